@@ -15,7 +15,7 @@ REPO = os.environ.get('VERIF_REPO', '/repo')
 OUT = os.path.join(ROOT, 'replays')
 
 
-def run_harness(mode, timeout=600):
+def run_harness(mode, timeout=600, hooks=False):
     """build + run the replay harness for `mode`; returns dict(found, witness, log)"""
     src = os.path.join(ROOT, 'replay', 'src', 'main.rs')
     if not os.path.exists(src):
@@ -33,7 +33,7 @@ def run_harness(mode, timeout=600):
         env = dict(os.environ, CARGO_TARGET_DIR=os.path.join(scratch, 'target'), CARGO_NET_OFFLINE='true')
         rf = env.get('RUSTFLAGS', '')
         # the replay runs the code as shipped (guard OFF) unless VERIF_REPLAY_HOOKS=1
-        hook = ' --cfg similar_verif' if os.environ.get('VERIF_REPLAY_HOOKS') == '1' else ''
+        hook = ' --cfg similar_verif' if (hooks or os.environ.get('VERIF_REPLAY_HOOKS') == '1') else ''
         env['RUSTFLAGS'] = (rf + hook + ' -Awarnings').strip()
         p = subprocess.run(['cargo', 'run', '--release', '--offline', '-q', '--', mode], cwd=scratch, env=env,
                            stdout=subprocess.PIPE, stderr=subprocess.PIPE, text=True, timeout=timeout)
